@@ -20,6 +20,7 @@ import DtailModel.Model.Perm
 import DtailModel.Model.Aggregate
 import DtailModel.Model.Outfile
 import DtailModel.Model.Limiter
+import DtailModel.Model.Conn
 open Dtail
 
 structure Res where
@@ -752,6 +753,65 @@ def opC13Script : List String → Res
     | none => bad
   | _ => bad
 
+/-! C14 -/
+
+/-- script ops of the harness interpreted on the model; the client's connection index maps to
+    the server's accept order -/
+structure C14Run where
+  st : ConnState
+  idx : List (Nat × Nat) := []       -- client conn id ↦ index in st.conns
+  handshaken : List Nat := []        -- client conn ids with an established SSH client
+
+def c14lookup (r : C14Run) (i : Nat) : Option Nat := (r.idx.find? (·.1 == i)).map (·.2)
+
+def c14step (r : C14Run) (l : CLabel) : C14Run := match connStep r.st l with
+  | some s => { r with st := s }
+  | none => r
+
+def c14op (r : C14Run) (op : String) : C14Run × Bool :=
+  let i := ((op.drop 1).toString.toNat?).getD 0
+  let connect (r : C14Run) : C14Run :=
+    let r' := c14step r .connect
+    { r' with idx := (i, r.st.conns.length) :: r.idx.filter (·.1 != i) }
+  let phase (r : C14Run) : Option CPhase := (c14lookup r i).bind (fun k => r.st.conns[k]?)
+  let hs (r : C14Run) (good : Bool) : C14Run × Bool :=
+    match c14lookup r i, phase r with
+    | some k, some .handshaking =>
+      if good then ({ c14step r (.handshakeOk k) with handshaken := i :: r.handshaken }, true)
+      else (c14step r (.handshakeFail k), false)
+    | _, _ => (r, false)
+  match op.toList.head? with
+  | some 'T' => (connect r, true)
+  | some 'A' => hs (connect r) true
+  | some 'H' => if r.handshaken.contains i then (r, false) else hs r true
+  | some 'B' => if r.handshaken.contains i then (r, false) else hs r false
+  | some 'S' => match c14lookup r i, phase r with
+    | some k, some .authenticated => (c14step r (.shell k), true)
+    | _, _ => (r, false)
+  | some 'X' => match c14lookup r i, phase r with
+    | some k, some .authenticated => ({ c14step r (.close k) with handshaken := r.handshaken.filter (· != i) }, true)
+    | some k, some .handshaking => (c14step r (.handshakeFail k), true)
+    | _, _ => (r, true)
+  | _ => (r, false)
+
+def opC14Script : List String → Res
+  | [max, ops] => match max.toNat? with
+    | some max =>
+      let opl := (ops.splitOn ",").filter (· ≠ "")
+      let (r, obs) := opl.foldl (fun (acc : C14Run × List String) op =>
+          let (r, ok) := c14op acc.1 op
+          (r, acc.2 ++ [s!"{r.st.counter}/{boolStr ok}"])) ({ st := connInit max }, [])
+      let top : Int := obs.foldl (fun (m : Int) o => max' m (((o.splitOn "/").headD "0").toInt?.getD 0)) 0
+      let low : Int := obs.foldl (fun (m : Int) o => let v : Int := ((o.splitOn "/").headD "0").toInt?.getD 0; if v < m then v else m) 0
+      { m := joinWith "," obs ++ ";final=0",
+        s := (if top ≤ max ∧ low ≥ 0 then "bounded" else "OUT-OF-BOUNDS") ++ ";final=0",
+        t := joinWith "," ((if r.st.conns.contains .refused then ["refused"] else []) ++ (if opl.any (·.startsWith "B") then ["badcred"] else [])
+          ++ (if opl.any (·.startsWith "S") then ["shell"] else []) ++ (if opl.any (·.startsWith "T") then ["rawtcp"] else [])
+          ++ (if obs.any (·.startsWith s!"{max}/") then ["full"] else [])) }
+    | none => bad
+  | _ => bad
+where max' (a b : Int) : Int := if a < b then b else a
+
 def dispatch (line : String) : Res :=
   match (line.splitOn " ").filter (· ≠ "") with
   | "c01.reader" :: a => opC01Reader a
@@ -770,6 +830,7 @@ def dispatch (line : String) : Res :=
   | "c12.roundtrip" :: a => opC12Roundtrip a
   | "c11.parse" :: a => opC11Parse a
   | "c13.script" :: a => opC13Script a
+  | "c14.script" :: a => opC14Script a
   | "c15.write" :: a => opC15Write a
   | "c16.colorfy" :: a => opC16Colorfy a
   | "c16.write" :: a => opC16Write a
